@@ -358,6 +358,10 @@ func litChains(lits []string, pg bool) (cs []chain) {
 
 func judgeLex(w *out.W, id, head, where, st string, cfg planCfg) (chs []chain, lits []string, inLits []chain) {
 	st2, fs := repairKnownF(st, cfg)
+	if stmtSink != nil {
+		stmtSink(st, cfg.pg)
+		stmtSink(st2, cfg.pg)
+	}
 	for _, f := range fs {
 		if f.class == "nextval-literal-unescaped" {
 			w.Violation(id, f.class, fmt.Sprintf("%s: %s statement: the sequence reference %s stands in a string literal whose single quote is not doubled: %s", head, where, f.name, oneLine(st)))
